@@ -410,6 +410,31 @@ func buildProbes() {
 	add("~{~#{~a~} ~}", lv(lv(ints(1, 2, 3)...)))
 	add("~{~v{~a~} ~}", lv(iv(1), lv(ints(1, 2, 3)...)))
 
+	// literal text that starts with the block's own closing or opening character, a colon
+	// or an at-sign directly behind the terminator of a block: plain text, never part of it
+	for _, lit := range []string{"}", "}}", "{", ":}", "@}", ":", "~~}"} {
+		for _, it := range []string{"~{~a~}", "~:{~a~}", "~@{~a~}", "~{~a~:}", "~{~{~a~}~}", "~1{~a~}"} {
+			arg := lv(ints(1, 2)...)
+			switch {
+			case strings.HasPrefix(it, "~:{"), strings.HasPrefix(it, "~{~{"):
+				arg = lv(lv(iv(1)), lv(iv(2)))
+			}
+			if strings.HasPrefix(it, "~@{") {
+				add("{"+it+lit+"|~a", ints(1, 2)...)
+				continue
+			}
+			add("{"+it+lit+"|~a", arg, iv(9))
+			add("{"+it+lit+"|~a", nilv(), iv(9))
+		}
+	}
+	for _, lit := range []string{")", "(", ":)", "]", "[", ":]", ";", ">", "<"} {
+		add("(~(~a~)"+lit+"|~a", sv("Ab"), iv(9))
+		add("(~:(~a~)"+lit+"|~a", sv("ab cd"), iv(9))
+		add("[~[a~;b~]"+lit+"|~a", iv(1), iv(9))
+		add("[~:[a~;b~]"+lit+"|~a", nilv(), iv(9))
+		add("[~@[~a~]"+lit+"|~a", iv(3), iv(9))
+	}
+
 	buildProbes2(add, ints)
 }
 
